@@ -57,6 +57,15 @@ pub fn dispatch(op: &str, ty: &str, args: &[Arg]) -> Option<String> {
         // float sequences: raw bit patterns of the f64 results; start/stop are given as exact dyadic rationals n/d
         // the sequences for an INTEGER element type (start / stop are whole numbers): every element is the double
         // converted to the element type (seeded change C16m: the two end values were converted first)
+        // logspace_a: one sequence per (start, stop, base) triple, laid out as columns
+        "logspace_a" => {
+            let (st, sp, num, ep, base) = match args { [Arg::A(s1, e1), Arg::A(s2, e2), Arg::Z(n), Arg::Z(e), b] =>
+                (Array::<f64>::new(e1.iter().map(|&x| x as f64).collect(), s1.clone()).ok()?, Array::<f64>::new(e2.iter().map(|&x| x as f64).collect(), s2.clone()).ok()?,
+                 *n as usize, *e == 1, match b { Arg::N => None, Arg::A(s3, e3) => Some(Array::<usize>::new(e3.iter().map(|&x| x as usize).collect(), s3.clone()).ok()?), _ => return Some("bad".into()) }),
+                _ => return Some("bad".into()) };
+            let r = Array::<f64>::logspace_a(&st, &sp, Some(num), Some(ep), base.as_ref());
+            Some(match r { Ok(a) => match wf_violation(&a) { Some(v) => v, None => format!("{}|{}", shape_str(&a.get_shape().unwrap()), bits(&a.get_elements().unwrap())) }, Err(e) => err_str(&e) })
+        }
         "logspace_t" | "geomspace_t" | "linspace_t" => {
             fn seq<N: FromLabel + Numeric>(op: &str, args: &[Arg]) -> Option<String> {
                 let z = |i: usize| match args.get(i) { Some(Arg::Z(n)) => Some(*n), _ => None };
